@@ -46,11 +46,24 @@ def u64(x):
     return And(x >= 0, x <= M)
 
 
-def tight_bound(bound, pred):
+def _sample(bound, extra=()):
+    """finite sample for native evaluation of the quantifiers: the region representatives the property prescribes"""
+    from pyvc.values import V
+    if isinstance(bound.value, V):
+        return None
+    pts = {0, 1, M - 1, M, MAX_GROUP_COST_BOUND, MAX_GROUP_COST_BOUND + 1}
+    for c in list(extra) + [bound.value]:
+        if isinstance(c, int):
+            pts.update({c - 1, c, c + 1})
+    return sorted(p for p in pts if 0 <= p <= M)
+
+
+def tight_bound(bound, pred, extra=()):
     """`bound` (a FeeValue) is the exact implied upper bound of {x in uint64 | pred(x)}, when that set is not empty."""
+    smp = _sample(bound, extra)
     return And(Not(bound.is_unknown),
-               forall(T.Int, lambda x: Implies(And(u64(x), pred(x)), x <= bound.value)),
-               Implies(exists(T.Int, lambda x: And(u64(x), pred(x))), And(u64(bound.value), pred(bound.value))))
+               forall(T.Int, lambda x: Implies(And(u64(x), pred(x)), x <= bound.value), sample=smp),
+               Implies(exists(T.Int, lambda x: And(u64(x), pred(x)), sample=smp), And(u64(bound.value), pred(bound.value))))
 
 
 c = contract(F + "_get_asserted_max_value",
@@ -59,13 +72,33 @@ c = contract(F + "_get_asserted_max_value",
 requires(c, "wf", lambda compared_value: wf_fee(compared_value))
 ensures(c, "wf", lambda result: And(wf_fee(result[0]), wf_fee(result[1])))
 # field on the LEFT of the operator:  x OP c
+# D18: for c = 2^64-1 the set {x | x != c} has maximum c-1, the code answers c (top) -- listed finding, see DESIGN §9
+_D18 = {"D18": lambda compared_value: compared_value.value == M}
 ensures(c, "true_exact_left", lambda comparison_ins, compared_value, result:
         Implies(And(Not(compared_value.is_unknown), u64(compared_value.value)),
-                tight_bound(result[0], lambda x: cmp_sem(comparison_ins, x, compared_value.value))))
+                tight_bound(result[0], lambda x: cmp_sem(comparison_ins, x, compared_value.value),
+                            [compared_value.value])), known=_D18)
 ensures(c, "false_exact_left", lambda comparison_ins, compared_value, result:
         Implies(And(Not(compared_value.is_unknown), u64(compared_value.value)),
                 tight_bound(result[1], lambda x: Or(Not(cmp_sem(comparison_ins, x, compared_value.value)),
-                                                    Not(IsInstance(comparison_ins, SIXOPS))))))
+                                                    Not(IsInstance(comparison_ins, SIXOPS))),
+                            [compared_value.value])), known=_D18)
+
+
+def _reify_max_value(mv, ob):
+    from pyvc.replay import reify_object
+    from tealer.analyses.dataflow.transaction_context.fee_field import FeeValue
+    from tealer.teal.instructions.instructions import Instruction
+    ins = reify_object(mv, mv.int(ob.inputs["comparison_ins"].term)) or Instruction()
+    cv = ob.inputs["compared_value"]
+    fv = FeeValue(is_unknown=mv.bool(cv.fields["is_unknown"].term), value=mv.int(cv.fields["value"].term))
+    from pyvc.execbase import TYPEOF
+    yield {"args": {"comparison_ins": ins, "compared_value": fv},
+           "repr": {"comparison_ins": type(ins).__name__, "compared_value": repr(fv)},
+           "block": [TYPEOF(ob.inputs["comparison_ins"].term), cv.fields["value"].term]}
+
+
+c.reify = _reify_max_value
 ensures(c, "unknown_is_top_or_unknown", lambda compared_value, result:
         Implies(compared_value.is_unknown, And(Or(result[0].is_unknown, result[0].value == M),
                                                Or(result[1].is_unknown, result[1].value == M))))
@@ -101,15 +134,13 @@ ensures(c, "exact_field_right", lambda key, ins_stack_value, result: _exact(key,
 
 
 def _exact(key, sv, result, pos):
-    from pyvc.dsl import current
-    ex, st = current().ex, current().st
     a0, a1 = sv.args[0], sv.args[1]
     ca = a1 if pos == 0 else a0
     cins = _known_ins(ca)
     cval = int_lit(cins)
     sem_t = (lambda x: cmp_sem(sv.instruction, x, cval)) if pos == 0 else (lambda x: cmp_sem(sv.instruction, cval, x))
     return Implies(And(_direct(key, sv, pos), has_int_lit(cins), u64(cval)),
-                   And(tight_bound(result[0], sem_t), tight_bound(result[1], lambda x: Not(sem_t(x)))))
+                   And(tight_bound(result[0], sem_t, [cval]), tight_bound(result[1], lambda x: Not(sem_t(x)), [cval])))
 
 
 def _known_ins(sv):
@@ -121,9 +152,11 @@ def _known_ins(sv):
         for g, alt in sv.alts:
             if isinstance(alt, VRef) and alt.cls is K:
                 return alt.instruction
-    return sv.instruction
+    return getattr(sv, "instruction", None)
 
 
 must_fail(c, "canary", lambda key, ins_stack_value, result, v:
           Implies(And(keydef(v, key), u64(keyfld(v, key)), ev(v, ins_stack_value) != 0),
                   Or(result[1].is_unknown, keyfld(v, key) <= result[1].value)))
+from contracts.reify_sv import make_reifier
+c.reify = make_reifier(["Fee"], "FeeField")
